@@ -241,6 +241,28 @@ func NativeReplay(repo, hroot, relPkg, batchPath, scratch, knownPath string) ([]
 	testFile := filepath.Join(sdir, "replay_test.go")
 	os.WriteFile(testFile, []byte(tb.String()), 0o644)
 	replace[filepath.Join(repo, relPkg, "zz_verif_replay_test.go")] = testFile
+	// replay-only source patches (crash / yield points): textual substitutions on the CURRENT source
+	if pb, err := os.ReadFile(filepath.Join(hdir, "native_patch.json")); err == nil {
+		var patches map[string][][2]string
+		if err := json.Unmarshal(pb, &patches); err != nil {
+			return nil, "", fmt.Errorf("native_patch.json: %v", err)
+		}
+		for rel, subs := range patches {
+			src, err := os.ReadFile(filepath.Join(repo, rel))
+			if err != nil {
+				return nil, "", err
+			}
+			txt := string(src)
+			for _, sub := range subs {
+				txt = strings.ReplaceAll(txt, sub[0], sub[1])
+			}
+			pf := filepath.Join(sdir, "patched_"+strings.ReplaceAll(rel, "/", "_"))
+			if err := os.WriteFile(pf, []byte(txt), 0o644); err != nil {
+				return nil, "", err
+			}
+			replace[filepath.Join(repo, rel)] = pf
+		}
+	}
 	ov, _ := json.Marshal(map[string]interface{}{"Replace": replace})
 	ovFile := filepath.Join(sdir, "overlay.json")
 	os.WriteFile(ovFile, ov, 0o644)
